@@ -216,6 +216,18 @@ func c15e3Scenario(v c15e3Variant) func() *sched.Scenario {
 					}
 				}
 			}
+			// no queue jumping: a caller must not be handed a stream while a caller that was
+			// already waiting when it arrived is still unserved (or served with a higher id)
+			for _, c := range got {
+				for _, d := range w.callers {
+					if d == c || d.waiting == 0 || d.waiting > c.started || w.cancels[d.name] {
+						continue
+					}
+					if !d.ret || (d.err == nil && d.id > c.id) {
+						return explore.Failf("e3:queue-jumped", "%s: caller %s arrived (%d) after caller %s had begun to wait (%d) but was handed stream %d first", v.Name, c.name, c.started, d.name, d.waiting, c.id)
+					}
+				}
+			}
 			for _, c := range w.callers {
 				if !c.ret {
 					continue
